@@ -181,7 +181,7 @@ def worker(job):
 def main(chk, tier, seed):
     chk.rule = RULE
     chk.assumptions = ["values are distinct and free of spaces/colons", "at least one parameter (command_options is mandatory in a batch definition)"]
-    n = 4800 if tier == "quick" else 40000
+    n = 4800 if tier == "quick" else 200000
     per = 5 if tier == "quick" else 20
     chunk = (n + per - 1) // per
     jobs = []
